@@ -31,7 +31,10 @@ RULE = ("enumeration of bring-up configurations: device mode {bootloader, signer
         "change outcome {none needed, accepted, refused, status error, link error, time-out, ack "
         "lost, commit fails} x mode after exit x platform {Ledger, SGX, TCP}; thorough = complete product, "
         "quick = all non-version dimensions x seed-chosen version pairs (boundaries always "
-        "included) plus random version triples; non-trivial = bootloader-mode or version-boundary "
+        "included) plus random version triples; plus the manager programs themselves "
+        "(manager_ledger.py / manager_sgx.py / manager_tcp.py run as __main__ with a command "
+        "line: PIN file present / absent x -X / --changepin / none x change accepted / refused "
+        "x --version-one); non-trivial = bootloader-mode or version-boundary "
         "configuration; distinct by configuration")
 ASSUMPTIONS = [
     "reference model of 15 lines transcribes the property statement (supported = same major, "
